@@ -19,6 +19,9 @@ type worldBackend struct {
 	Sources  []string                  `json:"sources"` // "self" = this backend's socket, "dead" = a path nobody listens on, "other:<id>"
 	Fallback []string                  `json:"fallback"`
 	Section  string                    `json:"section"`
+	// the backend writes texts the way a core does: bytes as they are (control bytes unescaped; a code point U+E080..U+E0FF
+	// of the dataset stands for the single byte 0x80..0xFF, which is not UTF-8)
+	RawStrings bool `json:"raw_strings"`
 }
 
 type worldSpec struct {
@@ -73,6 +76,7 @@ func newWorld(spec *worldSpec, scratch string) (*world, error) {
 			return nil, err
 		}
 		b.Tables = wb.Tables
+		b.RawStrings = wb.RawStrings
 		wld.backends[wb.ID] = b
 	}
 	resolve := func(self string, list []string) []string {
@@ -194,6 +198,7 @@ type worldLine struct {
 	CmdReply  *string         `json:"cmd_reply"`
 	Commands  []string        `json:"commands"`
 	Federated bool            `json:"federated"`
+	Reset     *bool           `json:"reset"`
 	Which     string          `json:"which"`
 }
 
@@ -299,6 +304,10 @@ func worldOp(out *bufio.Writer, inst **lmd.VerifInstance, op string, raw []byte,
 		}
 		if line.CmdReply != nil {
 			b.CmdReply = *line.CmdReply
+		}
+		if line.Reset != nil {
+			v := *line.Reset
+			b.Mutate(func(_ map[string]*backend.Table) { b.ResetCmd = v })
 		}
 		if line.Mode != "" {
 			if err := b.SetMode(line.Mode); err != nil {
